@@ -12,7 +12,7 @@ MANIFEST = {
     'text': 'Every sequence of <= 5 (thorough 6) tokens over a 16-token alphabet, every string of <= 4 characters over 20 characters, '
             'every single token deletion/insertion/replacement of every valid formula with <= 2 operators and every numeral spelling '
             'over three digits is given to the real parser: it must return or raise FormulaError (totality), agree with a reference '
-            'recogniser on accept/reject, and export the reference rendering for accepted input.',
+            'recogniser on accept/reject, and export the reference rendering for accepted input. A juxtaposition space puts 14 complete operand units side by side inside 10 contexts.',
     'note': 'Trusted: ref/grammar.py recogniser. Sequences whose tokens merge lexically, x%%, parenthesised operands next to a space, '
             'and top-level unions are judged for totality only.',
 }
